@@ -661,3 +661,50 @@ def recursive_inputs():
         fs = "".join("fn c%d(n: u32) -> u32 { return c%d(n) + 1u; }\n" % (i, (i + 1) % k) for i in range(k))
         out.append(("rec_cycle%d" % k, buf + fs + "@compute @workgroup_size(1) fn main() { o[0] = c0(1u); }"))
     return out
+
+
+# ---------------------------------------------------------------------------------------------------------------
+# Exhaustive single-token edits of small seed programs (round 3): every deletion, every duplication and every insertion of
+# one token of a small alphabet at every position.  Error paths of a recursive-descent parser (a helper that reports an
+# error WITHOUT consuming the offending token, inside a loop that waits for a closing delimiter) are reached by exactly
+# such inputs; random mutation of large corpus shaders rarely lands on the few critical positions.
+TOKEDIT_SEEDS = [
+    "@group(0) @binding(0) var<storage, read_write> o: array<u32, 4>;\n"
+    "fn f(a: u32, b: ptr<function, u32>) -> u32 { for (var i = 0u; i < a; i++) { *b += i; } return *b; }\n"
+    "@compute @workgroup_size(1) fn main() { var x = 1u; for (var k: i32 = 0; k < 2; k += 1) { if (k == 1) { continue; } else { o[k] = f(2u, &x); } } }\n",
+    "struct S { @align(16) a: vec3<f32>, b: array<f32, 2>, }\nconst K = 2;\noverride W: u32 = 3u;\nalias T = vec2<u32>;\nvar<private> p: S;\n"
+    "fn g(s: S) -> f32 { var r = 0.0; var i = 0; loop { if (i >= K) { break; } r += s.b[i]; continuing { i++; break if i > 5; } } "
+    "switch (i) { case 0, 1: { r = 1.0; } default: { r -= 1.0; } } while (r > 9.0) { r = r / 2.0; } return r; }\n"
+    "@fragment fn main(@location(0) v: f32) -> @location(0) vec4<f32> { let t = T(1u, 2u); const_assert K == 2; return vec4<f32>(g(p) + v + f32(t.x)); }\n",
+]
+TOKEDIT_ALPHABET = ["{", "}", "(", ")", ";", ",", ":", "<", ">", "=", "[", "]", "@", ".", "->", "+", "-", "*", "&", "!", "x", "1", "1u",
+                    "for", "if", "else", "loop", "while", "switch", "case", "default", "fn", "var", "let", "return", "break", "continue",
+                    "continuing", "struct", "array", ">>", ">=", "++", "+=", "_"]
+
+
+def _simple_tokens(src):
+    import re
+    return re.findall(r"[A-Za-z_][A-Za-z0-9_]*|\d+\.\d+|\d+u?|->|\+\+|--|[-+*/<>=!]=|&&|\|\||<<|>>|\S", src)
+
+
+TOKEDIT_ALPHABET_QUICK = ["{", "}", "(", ")", ";", ",", "<", ">", "=", "[", "for", "loop"]
+
+
+def single_token_edits_systematic(full=True):
+    out = []
+    seen = set()
+    for seed in TOKEDIT_SEEDS:
+        toks = _simple_tokens(seed)
+        for i in range(len(toks) + 1):
+            cands = []
+            if i < len(toks):
+                cands.append(toks[:i] + toks[i + 1:])                 # delete
+                cands.append(toks[:i] + [toks[i]] + toks[i:])         # duplicate
+            for a in (TOKEDIT_ALPHABET if full else TOKEDIT_ALPHABET_QUICK):
+                cands.append(toks[:i] + [a] + toks[i:])               # insert
+            for c in cands:
+                s = " ".join(c)
+                if s not in seen:
+                    seen.add(s)
+                    out.append(s.encode())
+    return out
